@@ -112,7 +112,8 @@ def evaluate(f, present_normal, present_multi):
             return r
         return base(kind, name, payload, site)
     try:
-        ret, itp = E.run_it(f, RUN, [E.Tok("source")], {}, oracle)
+        inl = tuple(p_ for p_ in f.bodies if p_.startswith("store::fs::migrate_redb_v2_tuples::") and not f.bodies[p_].rec.get("derived"))
+        ret, itp = E.run_it(f, RUN, [E.Tok("source")], {}, oracle, inline=inl)
         return E.describe(ret, f), log
     except E.Unsupported as e:
         return "UNSUPPORTED-FORM: %s" % e, log
